@@ -18,7 +18,10 @@ const (
 	cookieTypeCiphertext uint16 = 0x601
 )
 
-var errUnexpectedCookieData = errors.New("unexpected cookie data")
+var (
+	errUnexpectedCookieData = errors.New("unexpected cookie data")
+	errUnexpectedNonceLen   = errors.New("unexpected nonce length")
+)
 
 // ServerCookie is the representation of a plaintext NTS cookie.
 type ServerCookie struct {
@@ -175,6 +178,10 @@ func (c *EncryptedServerCookie) Decrypt(key []byte) (ServerCookie, error) {
 	aessiv, err := miscreant.NewAEAD("AES-CMAC-SIV", key, 16)
 	if err != nil {
 		return ServerCookie{}, err
+	}
+
+	if len(c.Nonce) != aessiv.NonceSize() {
+		return ServerCookie{}, errUnexpectedNonceLen
 	}
 
 	b, err := aessiv.Open(nil /* dst */, c.Nonce, c.Ciphertext, nil /* additionalData */)
